@@ -21,6 +21,11 @@ def str_join(self, ex, sep, arg):
     sv = arg.yielded if hasattr(arg, "yielded") else ex.to_sv(arg)
     if sepc == "" and sv.ty.kind == "str":
         return SV(sv.z, STR)  # join of a sequence of single characters
+    if hasattr(ex, "to_val") and sv.ty.kind == "seq" and sv.ty.elem.kind == "val":
+        # template mode: the joined text of a sequence of opaque values is an opaque value determined by separator and sequence
+        from .templates import uf
+
+        return SV(uf("app_str_join", [z3.StringSort(), sv.ty.sort()], VAL_SORT)(sep.z, sv.z), VAL)
     raise OutOfSubset("str.join over a symbolic list of strings")
 
 
